@@ -22,9 +22,10 @@ MANIFEST = {
     'note': 'Speeds taken non-negative for the order proofs (is_sign_positive := true); the sign convention of min_speed is covered by C02-1.',
 }
 EXPLANATION = 'Per-site lower-bound obligations on insert_speed and pre-value provenance of the restore decision.'
-RULES = ['C13-1.sites', 'C13-2.restore', 'C13-3.merge']
+RULES = ['C13-1.sites', 'C13-2.restore', 'C13-3.merge', 'C13-4.empty']
 ASSUMPTIONS = ['speeds are non-negative in the order proofs', 'idx_start / idx_end are the positions their search loops are meant to find (not decided)']
 
 
 def run(ctx):
     SP.site_rules(ctx, 'C13', 'ge')
+    SP.empty_restriction_rule(ctx)
